@@ -146,7 +146,9 @@ def run(spec, ctx):
                     if text in seen:
                         continue
                     seen.add(text)
-                    if r.random() < 0.25:
+                    if r.random() < 0.1 and not (i % 5 == 4):
+                        check_query_case(ctx, ast, doc, text, "random:other-container-types", impl_doc=gen.exotic(doc, r))
+                    elif r.random() < 0.25:
                         name, env = r.choice(equivalent_envs())
                         check_query_case(ctx, ast, doc, text, "random:" + name, env=env)
                         ctx.cell("configurations", name)
